@@ -21,3 +21,4 @@ pub mod props_c14;
 pub mod props_c11;
 pub mod smap;
 pub mod checks;
+pub mod enumerate;
